@@ -171,9 +171,18 @@ func (c *Ctx) topReturn(st *State, fr *Frame, results []Val, res *FuncResult) {
 			env := c.entryEnv(st, fr)
 			bindResults(env, fr.fn.Signature, rts)
 			env.goal = true
+			if insts, labels, ok := env.expandForall(cl.E); ok {
+				for i, g := range insts {
+					c.oblige(st, fr, "post", "", cl.Label+"["+labels[i]+"]", pos, g, cl.Props, cl.Src)
+				}
+				continue
+			}
 			c.curClause = cl
 			c.oblige(st, fr, "post", "", cl.Label, pos, env.evalBool(cl.E), cl.Props, cl.Src)
 			c.curClause = nil
+		}
+		if fc.Defines != nil {
+			c.oblige(st, fr, "defines", fc.Defines.Fn, "", pos, mkBool(definesStructurallyOK(fr.fn, fc.Defines)), nil, "the function returns one closure whose captured variables are exactly the named parameters, in order")
 		}
 		if fc.HasMod {
 			c.frameObligations(st, fr, pos)
@@ -351,4 +360,72 @@ func (c *Ctx) allowSubObject(st *State, allowed map[string][]Term, ref Term, t t
 		}
 		allowed[fi.Key] = append(allowed[fi.Key], ref)
 	}
+}
+
+// definesStructurallyOK: the constructor consists of one MakeClosure over its own parameter cells, in the order the
+// `defines` clause names them, and returns it. Then `NAME(args)` denotes exactly "that closure with its captured
+// variables holding args", which is what the closure's own contract (over its captured variables) describes.
+func definesStructurallyOK(f *ssa.Function, d *ECall) bool {
+	var mc *ssa.MakeClosure
+	nret := 0
+	for _, b := range f.Blocks {
+		for _, in := range b.Instrs {
+			switch x := in.(type) {
+			case *ssa.MakeClosure:
+				if mc != nil {
+					return false
+				}
+				mc = x
+			case *ssa.Return:
+				nret++
+				if len(x.Results) != 1 {
+					return false
+				}
+			case *ssa.Call:
+				if bi, ok := x.Call.Value.(*ssa.Builtin); !ok || bi.Name() != "ssa:deferstack" {
+					return false
+				}
+			case *ssa.Go, *ssa.Defer, *ssa.MapUpdate, *ssa.Send:
+				return false
+			case *ssa.Store:
+				// only stores into the function's own local cells (parameter spills, the result slot)
+				if _, ok := x.Addr.(*ssa.Alloc); !ok {
+					return false
+				}
+				// a parameter cell is written exactly once, with the parameter itself
+				if a := x.Addr.(*ssa.Alloc); a.Heap {
+					if p, isP := x.Val.(*ssa.Parameter); !isP || p.Name() != a.Comment {
+						return false
+					}
+				}
+			}
+		}
+	}
+	if mc == nil && len(d.Args) == 0 && nret == 1 {
+		// a constructor without parameters returns a closure-free function literal
+		return len(f.AnonFuncs) == 1
+	}
+	if mc == nil || nret != 1 || len(mc.Bindings) != len(d.Args) {
+		return false
+	}
+	for i, bnd := range mc.Bindings {
+		a, ok := bnd.(*ssa.Alloc)
+		if !ok {
+			return false
+		}
+		id, ok := d.Args[i].(EIdent)
+		if !ok || a.Comment != id.Name {
+			return false
+		}
+		isParam := false
+		for _, p := range f.Params {
+			if p.Name() == id.Name {
+				isParam = true
+			}
+		}
+		if !isParam {
+			return false
+		}
+	}
+	return true
 }
